@@ -15,6 +15,7 @@
 //! Encodings: logid [term,node,index]; vote [term,node,committed]; entry {"id":logid,"p":["blank"]|["mem",n]|["cmd",<serde ClusterCommand>]};
 //! bound ["i",n]|["e",n]|["u"]. Membership id n = bitmask of voter node ids 1..=6 (0 = default/empty).
 mod cluster;
+mod coord;
 use openraft::storage::RaftLogStorage;
 use openraft::storage::RaftStateMachine;
 use openraft::testing::{StoreBuilder, Suite};
@@ -435,6 +436,10 @@ fn main() {
         "ops" => run_ops(&rt, req),
         "crash" => run_crash(&rt, req),
         "suite" => run_suite(req),
+        "coord" => {
+            let rt2 = tokio::runtime::Builder::new_multi_thread().worker_threads(4).enable_all().build().unwrap();
+            rt2.block_on(coord::run(req))
+        }
         "cluster" => {
             // own multi-threaded runtime: openraft spawns its core and replication tasks
             let rt2 = tokio::runtime::Builder::new_multi_thread().worker_threads(4).enable_all().build().unwrap();
